@@ -17,6 +17,8 @@ the invariants at their initial values to solver tolerance.
 -/
 import ChemModel.Proofs.Kinetics
 
+set_option linter.unusedSectionVars false
+
 namespace ChemModel.C05
 open ChemModel.Kinetics
 
@@ -74,14 +76,39 @@ theorem rejection_names_violated_key (subs : Substances σ A) (rs : List (Reacti
     · exact h5 j (by simpa using hj) r' hr' key' hk
     · exact compSum_eq_zero_of_not_mem r' hk
 
-/-- **"Some substance has no composition ⇒ accept"** (non-strict), respectively the `ValueError` "No composition for …"
-    naming the first such substance (strict) — whatever the reactions are. -/
-theorem accept_when_composition_missing (subs : Substances σ A) (rs : List (Reaction σ ρ)) (s : σ)
-    (h : firstWithoutComposition subs = some s) :
-    checkBalance subs rs false = .ok ∧ checkBalance subs rs true = .noComposition s := by
-  unfold checkBalance
-  rw [h]
-  exact ⟨rfl, rfl⟩
+/-- **Accepted by the constructor iff balanced** (`ReactionSystem(rxns, substances)` with the default checks
+    `{balance, substance_keys, duplicate, duplicate_names}`; all are run with `throw=True`, so construction succeeds iff all
+    pass).  When every substance carries a composition, the constructor accepts exactly when
+    (1) every key of every reaction is a substance of the system (`check_substance_keys`),
+    (2) there are no duplicate reactions / duplicate names (`dupOk`, the outcome of the two checks not modelled here), and
+    (3) every reaction leaves every composition key unchanged.
+    So a balanced system can still be refused — only for reason (1) or (2); and under (1) the balance sum over the
+    substances of the system is the sum over the reaction's own species: nothing a reaction mentions is ignored.
+    ("a substance without composition ⇒ the balance check accepts" is `Kinetics.checkBalance_of_missing`.) -/
+theorem constructor_accept_iff (subs : Substances σ A) (rs : List (Reaction σ ρ)) (dupOk : Bool)
+    (hall : ∀ sc ∈ subs, ∃ comp, sc.2 = some comp) (hne : subs ≠ [] ∨ rs = []) :
+    (constructorAccepts subs rs dupOk = true ↔
+      (∀ r ∈ rs, ∀ k ∈ rxnKeys r, k ∈ dkeys subs) ∧ dupOk = true ∧
+        ∀ r ∈ rs, ∀ key : ℤ, (subs.map fun sc => compAt sc key * ((netStoich r sc.1 : ℤ) : A)).sum = 0) ∧
+    (∀ (r : Reaction σ ρ) (key : ℤ), (subs.map fun sc => compAt sc key * ((netStoich r sc.1 : ℤ) : A)).sum =
+        ((subs.filter fun sc => decide (sc.1 ∈ rxnKeys r)).map fun sc => compAt sc key * ((netStoich r sc.1 : ℤ) : A)).sum) := by
+  constructor
+  · have hb := accept_iff_balanced subs rs false hall hne
+    unfold constructorAccepts
+    rw [Bool.and_eq_true, Bool.and_eq_true, checkSubstanceKeys_iff]
+    constructor
+    · rintro ⟨⟨h1, h2⟩, h3⟩
+      refine ⟨h1, h2, hb.mp ?_⟩
+      cases hres : checkBalance subs rs false <;> simp [hres] at h3
+      rfl
+    · rintro ⟨h1, h2, h3⟩
+      refine ⟨⟨h1, h2⟩, ?_⟩
+      rw [hb.mpr h3]
+  · intro r key
+    apply sum_map_filter_of_zero
+    intro sc _ hp
+    have : sc.1 ∉ rxnKeys r := by simpa using hp
+    simp [netStoich_eq_zero_of_not_mem this]
 
 /-- The `zip(*substances.items())` of `composition_violation` fails on an empty substance dict: a system without
     substances and with a (necessarily trivially balanced) reaction is *not* accepted but raises `ValueError`
@@ -227,6 +254,27 @@ theorem all_invariants_reproduced (m ny : ℕ) (names : ℕ → σ) (npiv : ℕ)
     rw [h0]
     simp
 
+/-- **For `preferred=None` the coverage hypothesis always holds**: if the rows of `M` from `npiv` on are zero (they are,
+    for the reduced matrix: `npiv = len(pivots)` is its rank), then after phase 1 every row is served or zero.  Together with
+    `all_invariants_reproduced`: with `preferred=None` a state satisfying all offered eliminations satisfies EVERY invariant. -/
+theorem preferred_none_covers (m ny : ℕ) (names : ℕ → σ) (npiv : ℕ) (M : Mat K) (hnp : npiv ≤ m)
+    (hzero : ∀ rj, npiv ≤ rj → rj < m → ∀ di, di < ny → entry M rj di = 0) :
+    let res := elimPlan m ny names npiv M (none : Option (List σ))
+    ∀ rj, rj < m → (∃ rc ∈ res.2.1, rc.1 = rj) ∨ ∀ di, di < ny → entry res.1 rj di = 0 := by
+  intro res rj hrj
+  obtain ⟨h1, h2⟩ := elimLoop_cover m ny names npiv 0 M (by omega)
+  by_cases hlt : rj < npiv
+  · exact h2 rj (by omega) (by omega)
+  · exact Or.inr (h1 rj hrj (hzero rj (by omega) hrj))
+
+theorem all_invariants_reproduced_preferred_none (m ny : ℕ) (names : ℕ → σ) (npiv : ℕ) (M : Mat K) (hnp : npiv ≤ m)
+    (hzero : ∀ rj, npiv ≤ rj → rj < m → ∀ di, di < ny → entry M rj di = 0) (y0 y : ℕ → K) :
+    let res := elimPlan m ny names npiv M (none : Option (List σ))
+    (∀ rc ∈ res.2.1, y rc.2 = elimExpr (entry res.1 rc.1) y0 y ny rc.2) →
+    ∀ rj, rj < m → rowDot M ny rj (fun di => y di - y0 di) = 0 :=
+  fun hall => all_invariants_reproduced m ny names npiv M none hnp y0 y
+    (preferred_none_covers m ny names npiv M hnp hzero) hall
+
 /-- the input on which the solver before fix 16e59b0 offered `H2O` in terms of itself: reduced composition matrix of
     H2, O2, H2O, H+, OH-, H2O2 with `preferred = ["H2O", "OH-"]`.  The repaired loop serves H2O from row 0 and OH- from
     row 2, and both expressions are free of the other eliminated concentration. -/
@@ -237,6 +285,11 @@ example : (elimPlan 3 6 exNames 3 exRows (some ["H2O", "OH-"])).2.1 = [(0, 2), (
     (elimPlan 3 6 exNames 3 exRows (some ["H2O", "OH-"])).2.2 = some [] ∧
     (elimPlan 3 6 exNames 3 exRows (some ["H2O", "OH-"])).1 =
       [[1, 0, 1, 1, 0, 1], [-1/2, 1, 0, 0, 0, 1/2], [0, 0, 0, -1, 1, 0]] := by decide +kernel
+
+/-- coverage instantiated: `preferred=None` on the same matrix serves all three rows (pivot columns 0, 1, 3) -/
+example : (elimPlan 3 6 exNames 3 exRows (none : Option (List String))).2.1 = [(0, 0), (1, 1), (2, 3)] ∧
+    ∀ rj, rj < 3 → (∃ rc ∈ (elimPlan 3 6 exNames 3 exRows (none : Option (List String))).2.1, rc.1 = rj) ∨
+      ∀ di, di < 6 → entry (elimPlan 3 6 exNames 3 exRows (none : Option (List String))).1 rj di = 0 := by decide +kernel
 
 end Elimination
 
@@ -272,10 +325,19 @@ def exRxns : List (Reaction String ℚ) :=
 example : checkBalance exSubs exRxns false = .ok := by decide +kernel
 example : compositionBalanceVectors exSubs = .ok ([[0, 0, 0, 1, -1], [2, 0, 2, 1, 1], [0, 2, 1, 0, 1]], [0, 1, 8]) := by
   decide +kernel
-/-- unbalanced in charge only (`H2O + (H2) -> 2 H+ + OH-`) -/
-def exChargeOnly : Reaction String ℚ :=
-  { reac := [("H2O", 1)], prod := [("H+", 2), ("OH-", 1)], inactReac := [("H2", 1)], param := 1 }
-example : checkBalance exSubs [exChargeOnly] false = .violation 0 0 1 := by decide +kernel
+/-- unbalanced in charge ONLY: `Fe+3 -> Fe+2` with an explicit electron in the system (iron is conserved, the charge is not) -/
+def exRedoxSubs : Substances String ℤ :=
+  [("Fe+3", some [(0, 3), (26, 1)]), ("Fe+2", some [(0, 2), (26, 1)]), ("e-", some [(0, -1)]), ("hv", some [])]
+def exChargeOnly : Reaction String ℚ := { reac := [("Fe+3", 1)], prod := [("Fe+2", 1)], inactProd := [("hv", 1)], param := 1 }
+example : checkBalance exRedoxSubs [exChargeOnly] false = .violation 0 0 (-1) ∧
+    compositionViolation exChargeOnly exRedoxSubs none = .ok ([-1, 0], [0, 26]) := by decide +kernel
+/-- the same with the electron written out is accepted, also by the constructor -/
+example : constructorAccepts exRedoxSubs
+    [({ reac := [("Fe+3", 1), ("e-", 1)], prod := [("Fe+2", 1)], param := 1 } : Reaction String ℚ)] true = true := by decide +kernel
+/-- a balanced reaction naming a species outside the system is refused by the constructor although `check_balance` accepts it -/
+example : checkBalance exSubs [({ reac := [("H2O", 1)], prod := [("H+", 1), ("OH-", 1), ("X", 1)], param := 1 } : Reaction String ℚ)] false = .ok ∧
+    constructorAccepts exSubs [({ reac := [("H2O", 1)], prod := [("H+", 1), ("OH-", 1), ("X", 1)], param := 1 } : Reaction String ℚ)] true = false := by
+  decide +kernel
 /-- unbalanced in hydrogen only, second reaction -/
 example : checkBalance exSubs (exRxns ++ [{ reac := [("H2", 1)], prod := [], param := 1 }]) true = .violation 2 1 (-2) := by
   decide +kernel
